@@ -15,6 +15,15 @@ args = [a for a in args if a not in (",".join(props_override or []), tier)]
 manifest = json.load(open(os.path.join(VERIF, "MANIFEST.json")))
 claimed = {c["property_id"] for c in manifest["checks"]}
 seeds = args or sorted(os.listdir(os.path.join(VERIF, "seeded")))
+# the checks rewrite /verif/evidence on every run; what is committed there must come from the unchanged tree
+import shutil, atexit
+evidence_backup = os.path.join(VERIF, "work", "evidence_before_seedrun")
+shutil.rmtree(evidence_backup, ignore_errors=True)
+shutil.copytree(os.path.join(VERIF, "evidence"), evidence_backup)
+def _restore_evidence():
+    shutil.rmtree(os.path.join(VERIF, "evidence"), ignore_errors=True)
+    shutil.copytree(evidence_backup, os.path.join(VERIF, "evidence"))
+atexit.register(_restore_evidence)
 out = {}
 for sid in seeds:
     d = os.path.join(VERIF, "seeded", sid)
